@@ -141,16 +141,31 @@ import (
 	"time"
 
 	"github.com/eclipse/paho.mqtt.golang/packets"
+	egcontext "github.com/megaease/easegress/pkg/context"
 	"github.com/megaease/easegress/pkg/logger"
+	"github.com/megaease/easegress/pkg/protocols/mqttprot"
 	"verif/simkit/hdrv"
 	"verif/simkit/sim"
 	"verif/simkit/simnet"
 )
 
 const (
-	c16ID      = "X"
 	c16Timeout = 40 * time.Minute
+
+	// generator switches for ranges that meet a genuine defect of easegress on
+	// the unchanged tree (reported; see the header): off = not generated
+	c16GenWatchBreak = true
 )
+
+// c16ID is the contested client id of the current run (runs of one worker
+// process are sequential; set from the scenario at the start of Exec).
+var c16ID = "X"
+
+// c16IDs: ordinary client ids of real deployments - path-like, with blanks,
+// digits only, words YAML gives a meaning to (the stored session is YAML),
+// non-ASCII, long. The first one is the default.
+var c16IDs = []string{"X", "dev/7", "a b", "0123", "true", "null", "x:y", "~", "#x", "[1]", "m\u00fcller-\u00df", "'q'", "- z", "id: 1",
+	"sensor-0123456789-0123456789-0123456789-0123456789-0123456789-0123456789"}
 
 var (
 	c16Filters = []string{"a/b", "a/+", "a/#", "c", "c/d", "+/d"}
@@ -160,9 +175,10 @@ var (
 // ---- scenario ---------------------------------------------------------------
 
 type c16Step struct {
-	Op      string   `json:"op"` // sub | unsub | ping
+	Op      string   `json:"op"` // sub | unsub | ping | pub
 	Filters []string `json:"filters"`
 	QoS     byte     `json:"qos"`
+	QoSs    []byte   `json:"qoss"` // sub: one requested QoS per filter (used when as long as filters and not all_qos1)
 	GapUs   int64    `json:"gap_us"`
 	NoWait  bool     `json:"no_wait"`
 }
@@ -176,6 +192,8 @@ type c16Conn struct {
 	EndUs      int64     `json:"end_us"`
 	NoAck      bool      `json:"no_ack"`
 	Pipeline   bool      `json:"pipeline"` // the first step is sent right behind CONNECT, before CONNACK is read
+	V31        bool      `json:"v31"`      // CONNECT as MQTT 3.1 ("MQIsdp", level 3)
+	Will       bool      `json:"will"`     // CONNECT carries a will message
 	SegC2S     []int     `json:"seg_c2s"`
 	DelayC2SUs []int64   `json:"delay_c2s_us"`
 	DelayS2CUs []int64   `json:"delay_s2c_us"`
@@ -204,7 +222,43 @@ type c16StoreF struct {
 	DelErr       []int   `json:"del_err"`
 }
 
+// c16Pipes: pipelines configured for the packet types (Spec.Rules). The Connect
+// pipeline authenticates (password "ok"), the others let everything pass; all
+// may take time.
+type c16Pipes struct {
+	Connect     bool    `json:"connect"`
+	Subscribe   bool    `json:"subscribe"`
+	Unsubscribe bool    `json:"unsubscribe"`
+	Disconnect  bool    `json:"disconnect"`
+	Publish     bool    `json:"publish"`
+	DelayUs     []int64 `json:"delay_us"`
+}
+
+// c16Intr: a connection attempt that uses the contested client id and is
+// refused (never a takeover).
+type c16Intr struct {
+	GapUs int64  `json:"gap_us"` // since the start of the run
+	Kind  string `json:"kind"`   // badauth | badproto | pwnouser | notconnect | half
+	Clean bool   `json:"clean"`
+}
+
+// c16Adm: an admin DELETE of sessions of OTHER ids while the script runs.
+type c16Adm struct {
+	GapUs int64    `json:"gap_us"`
+	IDs   []string `json:"ids"` // nobody | ext (contested id + "zz") | by0 | by1
+}
+
 type c16Scenario struct {
+	ID          string    `json:"id"`        // contested client id (one of c16IDs)
+	ByExt       bool      `json:"by_ext"`    // bystander ids extend the contested id
+	TopicCache  int       `json:"topic_cache"`
+	MaxConn     bool      `json:"max_conn"`   // maxAllowedConnection set, never binding
+	ConnLimit   bool      `json:"conn_limit"` // connectionLimit / clientPublishLimit set, never binding
+	Creds       bool      `json:"creds"`      // clients send user name and password
+	Pipes       c16Pipes  `json:"pipes"`
+	Intr        []c16Intr `json:"intr"`
+	Adm         []c16Adm  `json:"adm"`
+	WatchBreakUs []int64  `json:"watch_break_us"` // instants (since start) at which the delete watch breaks
 	Conns       []c16Conn `json:"conns"`
 	By          []c16By   `json:"by"`
 	Pubs        []c16Pub  `json:"pubs"`
@@ -212,6 +266,8 @@ type c16Scenario struct {
 	BufSize     int       `json:"buf_size"`
 	AllQoS1     bool      `json:"all_qos1"`
 	AdminDelete bool      `json:"admin_delete"`
+	Burst       int       `json:"burst"`     // final check: QoS1 messages published while the survivor does not read for a while (0 = none)
+	BurstPad    int       `json:"burst_pad"` // payload padding in bytes
 }
 
 func c16PickFilters(rng *sim.Rand) []string {
@@ -280,6 +336,17 @@ func c16Gen(rng *sim.Rand, tier string) interface{} {
 				s.Op = "unsub"
 			case x < 3:
 				s.Op = "ping"
+			case x < 4 && rng.Bool(0.5):
+				// the client publishes (PUBLISH goes to the Publish pipeline, if
+				// any, and is acknowledged when QoS1)
+				s.Op = "pub"
+			}
+			if s.Op == "sub" && !sc.AllQoS1 && len(s.Filters) > 1 && rng.Bool(0.5) {
+				// one SUBSCRIBE asking for different QoS per filter (2 is granted or
+				// lowered by the server, either way the subscription exists)
+				for range s.Filters {
+					s.QoSs = append(s.QoSs, byte(rng.Pick(0, 1, 1, 2)))
+				}
 			}
 			s.NoWait = rng.Bool(0.15)
 			out = append(out, s)
@@ -345,7 +412,68 @@ func c16Gen(rng *sim.Rand, tier string) interface{} {
 	for i := rng.Pick(0, 1, 1, 2); i > 0; i-- {
 		sc.By = append(sc.By, c16By{Filters: c16PickFilters(rng), QoS: qos(), Clean: rng.Bool(0.5)})
 	}
+	c16GenExtras(rng, sc)
 	return sc
+}
+
+// c16GenExtras: ordinary configurations and inputs around the classic script
+// (about half of the runs keep the classic configuration).
+func c16GenExtras(rng *sim.Rand, sc *c16Scenario) {
+	if rng.Bool(0.45) {
+		return
+	}
+	if rng.Bool(0.5) {
+		sc.ID = c16IDs[rng.Intn(len(c16IDs))]
+	}
+	sc.ByExt = rng.Bool(0.3)
+	sc.TopicCache = rng.Pick(0, 0, 1, 2, 7)
+	sc.MaxConn = rng.Bool(0.25)
+	sc.ConnLimit = rng.Bool(0.25)
+	sc.Creds = rng.Bool(0.3)
+	if rng.Bool(0.45) {
+		p := &sc.Pipes
+		p.Connect, p.Subscribe, p.Unsubscribe, p.Disconnect, p.Publish = rng.Bool(0.6), rng.Bool(0.4), rng.Bool(0.4), rng.Bool(0.5), rng.Bool(0.4)
+		for i := rng.Range(1, 3); i > 0; i-- {
+			p.DelayUs = append(p.DelayUs, int64(rng.Pick(0, 0, 0, 57, 3001, 300007)))
+		}
+		if p.Connect {
+			sc.Creds = true
+		}
+	}
+	for k := range sc.Conns {
+		sc.Conns[k].V31 = rng.Bool(0.2)
+		sc.Conns[k].Will = rng.Bool(0.2)
+	}
+	gaps := []int{1003, 20011, 307000, 1013000, 2003000, 4001000, 8017000, 12007000}
+	if rng.Bool(0.4) {
+		for i := rng.Pick(1, 1, 2, 3); i > 0; i-- {
+			in := c16Intr{GapUs: int64(gaps[rng.Intn(len(gaps))] + 2*rng.Intn(500)), Kind: rng.PickStr("badproto", "pwnouser", "notconnect", "half", "badauth", "badauth"), Clean: rng.Bool(0.5)}
+			if in.Kind == "badauth" && !sc.Pipes.Connect {
+				in.Kind = "badproto"
+			}
+			sc.Intr = append(sc.Intr, in)
+		}
+	}
+	if rng.Bool(0.25) {
+		for i := rng.Pick(1, 1, 2); i > 0; i-- {
+			a := c16Adm{GapUs: int64(gaps[rng.Intn(len(gaps))] + 2*rng.Intn(500))}
+			for j := rng.Pick(1, 1, 2, 3); j > 0; j-- {
+				a.IDs = append(a.IDs, rng.PickStr("nobody", "ext", "ext", "by0", "by1"))
+			}
+			sc.Adm = append(sc.Adm, a)
+		}
+	}
+	if sc.AllQoS1 && rng.Bool(0.3) {
+		// more messages than the connection's queue (and, padded, the socket
+		// buffer) hold
+		sc.Burst = rng.Pick(55, 70, 100)
+		sc.BurstPad = rng.Pick(0, 0, 700, 1500)
+	}
+	if c16GenWatchBreak && rng.Bool(0.2) {
+		for i := rng.Pick(1, 1, 2); i > 0; i-- {
+			sc.WatchBreakUs = append(sc.WatchBreakUs, int64(gaps[rng.Intn(len(gaps))]+2*rng.Intn(500)))
+		}
+	}
 }
 
 // ---- reference model --------------------------------------------------------
@@ -453,6 +581,10 @@ type c16Store struct {
 	admin   bool     // the harness's admin delete is in progress
 	delErrs int
 	quiet   bool // the run is being wound down
+	nWatchCalls int
+	nPrefix     int
+	breaks      int
+	onPrefix    func(has func(id string) bool)
 	// deleter tells (at the moment delete is called) whether the connection that
 	// deletes the contested key still owns the id: "owner" or "superseded"
 	deleter func() string
@@ -507,6 +639,12 @@ func (s *c16Store) get(key string) (*string, error) {
 
 func (s *c16Store) getPrefix(prefix string, keysOnly bool) (map[string]string, error) {
 	out := map[string]string{}
+	// only Broker.reconnectWatcher asks (the harness never calls the session
+	// query endpoint): remember which session keys it did not find
+	s.nPrefix++
+	if s.onPrefix != nil && !s.quiet {
+		s.onPrefix(func(id string) bool { _, ok := s.data[sessionStoreKey(id)]; return ok })
+	}
 	for k, v := range s.data {
 		if strings.HasPrefix(k, prefix) {
 			if keysOnly {
@@ -574,10 +712,11 @@ func (s *c16Store) delete(key string) error {
 		m := map[string]*string{key: nil}
 		if s.f.Async {
 			nw := s.nWatch
+			ch := s.ch
 			go func() {
 				s.lat(s.f.WatchDelayUs, nw, "store.watch")
 				select {
-				case s.ch <- m:
+				case ch <- m:
 				default:
 				}
 			}()
@@ -592,8 +731,35 @@ func (s *c16Store) delete(key string) error {
 }
 
 func (s *c16Store) watchDelete(prefix string) (<-chan map[string]*string, func(), error) {
+	s.nWatchCalls++
+	if s.nWatchCalls > 1 {
+		// a new watch has a channel of its own: events of the broken one that are
+		// still under way are lost, like the deletions during the gap
+		s.ch = make(chan map[string]*string, 256)
+		if !s.quiet {
+			s.r.Probe("c16.watch_reestablished")
+		}
+	}
 	s.watched = true
 	return s.ch, func() {}, nil
+}
+
+// breakWatch: the delete watch ends the way cluster.watcher ends it when etcd
+// cancels the watch (compaction, lost leader, closed client): the consumer
+// reads a nil map (the real channel is closed; the simulated one stays open
+// because delayed deliveries may still be written to it).
+func (s *c16Store) breakWatch() bool {
+	if !s.watched || s.quiet {
+		return false
+	}
+	s.watched = false
+	s.breaks++
+	s.r.Fault("store.watch_break")
+	select {
+	case s.ch <- nil:
+	default:
+	}
+	return true
 }
 
 // ---- harness state ----------------------------------------------------------
@@ -602,6 +768,7 @@ type c16Op struct {
 	op      string
 	filters []string
 	qos     byte
+	qoss    []byte // per filter
 }
 
 type c16Cli struct {
@@ -645,6 +812,9 @@ type c16Cli struct {
 	subs           map[string]byte // bystander's own acknowledged subscriptions
 	tick           time.Duration   // odd nanoseconds slept before every write (tie breaking, see send)
 	ackq           []uint16        // PUBACKs to be written by the acker task
+	pause          chan struct{}   // set: the reader stops after the next packet until the channel is closed
+	nBurst         int             // distinct long payloads received
+	mayClose       bool            // bystander: its session was deleted by an admin request / its key was missing when the watch was re-established
 	ackNote        chan struct{}
 }
 
@@ -680,9 +850,12 @@ type c16H struct {
 	supInflight bool // a connection had unacknowledged operations when it was superseded
 	probeN  int
 	ncli    int
+	pipeN   int
 	live    int
 	liveNames map[string]bool
 	takeovers, restores int
+	intr      map[int]string // connection id -> name of a refused connection attempt
+	watchKill bool           // the contested id's session key was missing when the delete watch was re-established: its connection may be closed
 }
 
 // goTask starts a harness task and keeps count of the live ones (the end of
@@ -719,13 +892,23 @@ func (h *c16H) history() string {
 func (h *c16H) describe() string {
 	var sb strings.Builder
 	for k, c := range h.sc.Conns {
-		fmt.Fprintf(&sb, "x%d{clean=%v ka=%d gap=%dus end=%s@%dus pipeline=%v", k, c.Clean, c.KeepAlive, c.GapUs, c.End, c.EndUs, c.Pipeline)
+		fmt.Fprintf(&sb, "x%d{clean=%v ka=%d gap=%dus end=%s@%dus pipeline=%v v31=%v will=%v", k, c.Clean, c.KeepAlive, c.GapUs, c.End, c.EndUs, c.Pipeline, c.V31, c.Will)
 		for _, s := range c.Steps {
 			fmt.Fprintf(&sb, " %s%v", s.Op, s.Filters)
 		}
 		sb.WriteString("} ")
 	}
-	fmt.Fprintf(&sb, "by=%d pubs=%d buf=%d qos1=%v async=%v", len(h.sc.By), len(h.sc.Pubs), h.sc.BufSize, h.sc.AllQoS1, h.sc.Store.Async)
+	fmt.Fprintf(&sb, "by=%d pubs=%d buf=%d qos1=%v async=%v id=%q byext=%v topiccache=%d maxconn=%v limits=%v creds=%v pipelines=%v", len(h.sc.By), len(h.sc.Pubs), h.sc.BufSize, h.sc.AllQoS1, h.sc.Store.Async,
+		c16ID, h.sc.ByExt, h.sc.TopicCache, h.sc.MaxConn, h.sc.ConnLimit, h.sc.Creds, h.pipeTypes())
+	for _, in := range h.sc.Intr {
+		fmt.Fprintf(&sb, " refused{%s@%dus}", in.Kind, in.GapUs)
+	}
+	for _, a := range h.sc.Adm {
+		fmt.Fprintf(&sb, " admin-delete%v@%dus", a.IDs, a.GapUs)
+	}
+	if c16GenWatchBreak && len(h.sc.WatchBreakUs) > 0 {
+		fmt.Fprintf(&sb, " watch-breaks@%vus", h.sc.WatchBreakUs)
+	}
 	return sb.String()
 }
 
@@ -985,11 +1168,15 @@ func c16ConnID(cl *Client) int {
 
 // ---- clients ----------------------------------------------------------------
 
-var c16Primes = []int{137, 139, 149, 151, 157, 163, 167, 173, 179, 181, 191, 193}
+var c16Primes = []int{137, 139, 149, 151, 157, 163, 167, 173, 179, 181, 191, 193, 197, 199, 211, 223}
+
+func (h *c16H) nextTick() time.Duration {
+	h.ncli++
+	return time.Duration(c16Primes[h.ncli%len(c16Primes)]) * time.Nanosecond
+}
 
 func (h *c16H) newCli(name, id string, idx int, spec c16Conn) *c16Cli {
-	h.ncli++
-	return &c16Cli{tick: time.Duration(c16Primes[h.ncli%len(c16Primes)]) * time.Nanosecond, h: h, name: name, id: id, idx: idx, spec: spec, wmu: make(chan struct{}, 1), note: make(chan struct{}), ackNote: make(chan struct{}),
+	return &c16Cli{tick: h.nextTick(), h: h, name: name, id: id, idx: idx, spec: spec, wmu: make(chan struct{}, 1), note: make(chan struct{}), ackNote: make(chan struct{}),
 		recv: map[string]int{}, acks: map[uint16]bool{}, inflight: map[uint16]*c16Op{}, nextID: 1, subs: map[string]byte{}}
 }
 
@@ -1043,13 +1230,20 @@ func (c *c16Cli) reader() {
 			c.onAck(p.MessageID)
 		case *packets.UnsubackPacket:
 			c.onAck(p.MessageID)
+		case *packets.PubackPacket:
+			c.onAck(p.MessageID)
 		case *packets.PingrespPacket:
 			c.pingResp++
 		case *packets.PublishPacket:
 			pl := string(p.Payload)
 			c.recv[pl]++
 			if c.recv[pl] == 1 {
-				h.logf("%s: got %s on %s qos%d", c.name, pl, p.TopicName, p.Qos)
+				show := pl
+				if len(show) > 12 {
+					show = show[:12] + "..."
+					c.nBurst++
+				}
+				h.logf("%s: got %s on %s qos%d", c.name, show, p.TopicName, p.Qos)
 			}
 			if p.Qos == 1 && !c.spec.NoAck {
 				c.ackq = append(c.ackq, p.MessageID)
@@ -1057,6 +1251,15 @@ func (c *c16Cli) reader() {
 			}
 		}
 		c.bcast()
+		if c.pause != nil {
+			// slow consumer: leaves the rest in the socket buffer for a while
+			ch := c.pause
+			c.pause = nil
+			h.logf("%s: pauses reading", c.name)
+			<-ch
+			h.r.Yield("c16.resume")
+			h.logf("%s: resumes reading", c.name)
+		}
 		if c.stopRead {
 			// stalled subscriber: leave everything else in the socket buffer
 			h.logf("%s: stops reading", c.name)
@@ -1079,9 +1282,12 @@ func (c *c16Cli) onAck(id uint16) {
 		}
 		return
 	}
+	if op.op == "pub" {
+		return
+	}
 	firm := h.cur == c && !c.superseded && !c.ended
 	h.logf("%s: %sack %v firm=%v", c.name, op.op, op.filters, firm)
-	for _, f := range op.filters {
+	for i, f := range op.filters {
 		h.model.ever[f] = true
 		if !firm {
 			h.model.amb[f] = true
@@ -1089,6 +1295,9 @@ func (c *c16Cli) onAck(id uint16) {
 		}
 		if op.op == "sub" {
 			h.model.subs[f] = op.qos
+			if i < len(op.qoss) {
+				h.model.subs[f] = op.qoss[i]
+			}
 		} else {
 			delete(h.model.subs, f)
 			delete(h.model.inherited, f)
@@ -1130,9 +1339,22 @@ func (h *c16H) connect(c *c16Cli) bool {
 	}
 	p := packets.NewControlPacket(packets.Connect).(*packets.ConnectPacket)
 	p.ProtocolName, p.ProtocolVersion = "MQTT", 4
+	if c.spec.V31 {
+		p.ProtocolName, p.ProtocolVersion = "MQIsdp", 3
+		h.r.Probe("c16.connect_mqtt31")
+	}
 	p.CleanSession = c.spec.Clean
 	p.ClientIdentifier = c.id
 	p.Keepalive = c.spec.KeepAlive
+	if h.sc.Creds || h.sc.Pipes.Connect {
+		p.UsernameFlag, p.Username = true, "u"
+		p.PasswordFlag, p.Password = true, []byte("ok")
+	}
+	if c.spec.Will {
+		p.WillFlag, p.WillTopic, p.WillMessage = true, "c", []byte("will of "+c.name)
+		p.WillQos = h.subQoS(1)
+		h.r.Probe("c16.connect_with_will")
+	}
 	c.connectSeq = h.r.Seq()
 	h.logf("%s: CONNECT clean=%v keepalive=%d (conn %d)", c.name, c.spec.Clean, c.spec.KeepAlive, c.cid)
 	c.hits0 = h.st.getHit[sessionStoreKey(c.id)]
@@ -1189,6 +1411,12 @@ func (h *c16H) onConnack(c *c16Cli) {
 			prev.takenOver = true
 			h.r.Probe("c16.old_teardown_during_new_handshake_seen_at_connack")
 		}
+	}
+	// MQTT 3.1.1 §3.2.2.2: session present = 0 for clean=1, else whether the
+	// server has stored session state. Not part of the statement: probe only.
+	wantSP := !c.spec.Clean && h.model.has && h.model.persistent
+	if c.connack.SessionPresent != wantSP {
+		h.r.Probe(fmt.Sprintf("c16.connack_session_present_%v_mqtt_says_%v", c.connack.SessionPresent, wantSP))
 	}
 	restored := h.model.connack(c.spec.Clean, h.st.lossy)
 	h.cur = c
@@ -1290,6 +1518,7 @@ func (h *c16H) doStep(c *c16Cli, s c16Step) bool {
 		id := c.nextID
 		c.nextID++
 		q := h.subQoS(s.QoS)
+		var qoss []byte
 		var p packets.ControlPacket
 		if s.Op == "sub" {
 			sp := packets.NewControlPacket(packets.Subscribe).(*packets.SubscribePacket)
@@ -1297,14 +1526,25 @@ func (h *c16H) doStep(c *c16Cli, s c16Step) bool {
 			for range filters {
 				sp.Qoss = append(sp.Qoss, q)
 			}
+			if !h.sc.AllQoS1 && len(s.QoSs) == len(s.Filters) && len(filters) == len(s.Filters) {
+				sp.Qoss = nil
+				for _, x := range s.QoSs {
+					if x > 2 {
+						x = 2
+					}
+					sp.Qoss = append(sp.Qoss, x)
+				}
+				qoss = sp.Qoss
+				h.r.Probe("c16.subscribe_mixed_qos")
+			}
 			p = sp
 		} else {
 			up := packets.NewControlPacket(packets.Unsubscribe).(*packets.UnsubscribePacket)
 			up.MessageID, up.Topics = id, filters
 			p = up
 		}
-		c.inflight[id] = &c16Op{op: s.Op, filters: filters, qos: q}
-		h.logf("%s: %s %v qos%d id=%d", c.name, s.Op, filters, q, id)
+		c.inflight[id] = &c16Op{op: s.Op, filters: filters, qos: q, qoss: qoss}
+		h.logf("%s: %s %v qos%d%v id=%d", c.name, s.Op, filters, q, qoss, id)
 		if err := c.send(p); err != nil {
 			h.logf("%s: write failed: %v", c.name, err)
 			return false
@@ -1319,6 +1559,26 @@ func (h *c16H) doStep(c *c16Cli, s c16Step) bool {
 		n := c.pingSent
 		if !s.NoWait {
 			return h.waitFor(c, "pingresp", func() bool { return c.pingResp >= n })
+		}
+	case "pub":
+		// the client publishes: without a Publish pipeline the proxy has no
+		// backend for it; QoS1 is acknowledged either way
+		pp := packets.NewControlPacket(packets.Publish).(*packets.PublishPacket)
+		pp.TopicName, pp.Payload = "up/"+c.name, []byte("u")
+		pp.Qos = h.subQoS(s.QoS)
+		h.r.Probe("c16.client_publish")
+		if pp.Qos == 0 {
+			return c.send(pp) == nil
+		}
+		id := c.nextID
+		c.nextID++
+		pp.MessageID = id
+		c.inflight[id] = &c16Op{op: "pub"}
+		if err := c.send(pp); err != nil {
+			return false
+		}
+		if !s.NoWait {
+			return h.waitFor(c, "puback", func() bool { return c.acks[id] })
 		}
 	}
 	return true
@@ -1434,6 +1694,211 @@ func (h *c16H) publisher() {
 	}
 }
 
+// ---- pipelines, refused connection attempts, admin deletes of other ids ------
+
+func (h *c16H) pipeTypes() []PacketType {
+	var out []PacketType
+	p := h.sc.Pipes
+	for _, x := range []struct {
+		on bool
+		t  PacketType
+	}{{p.Connect, Connect}, {p.Subscribe, Subscribe}, {p.Unsubscribe, Unsubscribe}, {p.Disconnect, Disconnect}, {p.Publish, Publish}} {
+		if x.on {
+			out = append(out, x.t)
+		}
+	}
+	return out
+}
+
+// c16Mux maps the pipeline names of the rules to handlers that behave like a
+// pipeline that lets everything pass (Connect: authenticates the password).
+type c16Mux struct{ h *c16H }
+
+type c16Pipe struct {
+	h    *c16H
+	kind string
+}
+
+func (m *c16Mux) GetHandler(name string) (egcontext.Handler, bool) {
+	if !strings.HasPrefix(name, "c16-") {
+		return nil, false
+	}
+	return &c16Pipe{h: m.h, kind: strings.TrimPrefix(name, "c16-")}, true
+}
+
+func (p *c16Pipe) Handle(ctx *egcontext.Context) string {
+	h := p.h
+	if h.closing {
+		return ""
+	}
+	h.pipeN++
+	if ds := h.sc.Pipes.DelayUs; len(ds) > 0 {
+		if d := c16Us(ds[h.pipeN%len(ds)]); d > 0 {
+			if d > 400*time.Millisecond {
+				d = 400 * time.Millisecond
+			}
+			h.r.Fault("pipeline.latency")
+			h.r.Sleep(d)
+		}
+	}
+	if p.kind == string(Connect) {
+		req, _ := ctx.GetRequest(egcontext.DefaultNamespace).(*mqttprot.Request)
+		resp, _ := ctx.GetResponse(egcontext.DefaultNamespace).(*mqttprot.Response)
+		if req != nil && resp != nil && req.ConnectPacket() != nil && string(req.ConnectPacket().Password) != "ok" {
+			resp.SetDisconnect()
+		}
+	}
+	return ""
+}
+
+// intruder: one connection attempt with the contested client id that the
+// broker has to refuse. It is not a takeover: the id's current connection, its
+// session, subscriptions and registration must be what they were (checked by
+// the invariant and by the final checks on the survivor).
+func (h *c16H) intruder(name string, in c16Intr, tick time.Duration) {
+	defer h.scriptDone()
+	h.r.Sleep(c16Us(in.GapUs))
+	if h.stop() {
+		return
+	}
+	kind := in.Kind
+	p := packets.NewControlPacket(packets.Connect).(*packets.ConnectPacket)
+	p.ProtocolName, p.ProtocolVersion = "MQTT", 4
+	p.CleanSession, p.ClientIdentifier = in.Clean, c16ID
+	if h.sc.Creds || h.sc.Pipes.Connect {
+		p.UsernameFlag, p.Username = true, "u"
+		p.PasswordFlag, p.Password = true, []byte("ok")
+	}
+	var raw bytes.Buffer
+	switch kind {
+	case "badauth":
+		if !h.sc.Pipes.Connect {
+			return // would be accepted: a takeover the script does not know
+		}
+		p.PasswordFlag, p.Password = true, []byte("wrong")
+		p.Write(&raw)
+	case "badproto":
+		p.ProtocolVersion = 5
+		p.Write(&raw)
+	case "pwnouser":
+		p.UsernameFlag, p.Username = false, ""
+		p.PasswordFlag, p.Password = true, []byte("ok")
+		p.Write(&raw)
+	case "notconnect":
+		sp := packets.NewControlPacket(packets.Subscribe).(*packets.SubscribePacket)
+		sp.MessageID, sp.Topics, sp.Qoss = 1, []string{"z"}, []byte{0}
+		sp.Write(&raw)
+	case "half":
+		p.Write(&raw)
+		raw.Truncate(raw.Len() / 2)
+	default:
+		return
+	}
+	conn, err := h.n.Dial(context.Background(), "tcp", name+".c16:1883")
+	if err != nil {
+		return
+	}
+	sc := conn.(*simnet.Conn)
+	h.intr[sc.ID] = name
+	h.logf("%s: connection attempt to be refused (%s, clean=%v, conn %d)", name, kind, in.Clean, sc.ID)
+	h.r.Sleep(tick)
+	conn.SetWriteDeadline(time.Now().Add(c16Timeout))
+	conn.Write(raw.Bytes())
+	if kind == "half" {
+		h.r.Sleep(c16Us(1000) + tick)
+		conn.Close()
+		h.r.Probe("c16.intruder." + kind)
+		return
+	}
+	conn.SetReadDeadline(time.Now().Add(c16Timeout))
+	res := "closed"
+	for {
+		pk, err := packets.ReadPacket(conn)
+		if err != nil {
+			break
+		}
+		if ca, ok := pk.(*packets.ConnackPacket); ok {
+			if ca.ReturnCode == packets.Accepted {
+				res = "accepted"
+				break
+			}
+			res = fmt.Sprintf("refused%d", ca.ReturnCode)
+		}
+	}
+	conn.Close()
+	if h.closing {
+		return
+	}
+	h.logf("%s: %s", name, res)
+	h.r.Probe("c16.intruder." + kind)
+	if res == "accepted" {
+		h.r.Violate("C16.intruder-accepted", "%s: a CONNECT that had to be refused (%s) was accepted\n%s", name, kind, h.history())
+	}
+	h.bcast()
+}
+
+// adminOthers: DELETE of sessions of other client ids through the admin
+// handler while the script runs: ids nobody uses, an id that extends the
+// contested id, bystanders (which the broker may disconnect from then on).
+func (h *c16H) adminOthers(j int, a c16Adm) {
+	defer h.scriptDone()
+	h.r.Sleep(c16Us(a.GapUs))
+	if h.stop() {
+		return
+	}
+	var req HTTPSessions
+	var names []string
+	for _, x := range a.IDs {
+		id := ""
+		switch x {
+		case "nobody":
+			id = "nobody"
+		case "ext":
+			id = c16ID + "zz"
+		case "by0", "by1":
+			k := int(x[2] - '0')
+			if k < len(h.bys) {
+				id = h.bys[k].id
+				h.bys[k].mayClose = true
+			}
+		}
+		if id == "" || id == c16ID {
+			continue
+		}
+		req.Sessions = append(req.Sessions, &HTTPSession{SessionID: id})
+		names = append(names, id)
+	}
+	if len(names) == 0 {
+		return
+	}
+	body, _ := json.Marshal(req)
+	hr := httptest.NewRequest(http.MethodDelete, "/mqttproxy/c16/sessions", bytes.NewReader(body))
+	rec := httptest.NewRecorder()
+	h.logf("admin: DELETE sessions of other ids %q", names)
+	h.r.Probe("c16.admin_delete_of_other_ids")
+	h.b.httpDeleteSessionHandler(rec, hr)
+}
+
+// onPrefix runs inside c16Store.getPrefix, i.e. when Broker.reconnectWatcher
+// looks for sessions deleted while the watch was broken: an id whose key is
+// missing at that moment (deleted, or not stored yet: the store is
+// asynchronous) may be disconnected from then on.
+func (h *c16H) onPrefix(has func(id string) bool) {
+	x := has(c16ID)
+	if !x {
+		h.watchKill = true
+		h.r.Probe("c16.watch_break.contested_key_missing")
+	} else {
+		h.r.Probe("c16.watch_break.contested_key_present")
+	}
+	for _, by := range h.bys {
+		if !has(by.id) {
+			by.mayClose = true
+		}
+	}
+	h.logf("store: watch re-established, session keys listed (contested key present=%v)", x)
+}
+
 // ---- server side ------------------------------------------------------------
 
 func (h *c16H) serve(conn net.Conn) {
@@ -1472,6 +1937,8 @@ func (h *c16H) serve(conn net.Conn) {
 		st.retAt = h.r.Now()
 		if c := h.byConn[st.cid]; c != nil && !h.closing {
 			h.logf("server: handler of %s (conn %d) returned", c.name, st.cid)
+		} else if name := h.intr[st.cid]; name != "" && !h.closing {
+			h.logf("server: handler of %s (conn %d) returned", name, st.cid)
 		}
 		h.bcast()
 	}()
@@ -1502,6 +1969,9 @@ func (h *c16H) invariant() string {
 	if cl != nil {
 		id := c16ConnID(cl)
 		c := h.byConn[id]
+		if name := h.intr[id]; name != "" {
+			return fmt.Sprintf("C16.refused-connection-registered: b.clients[%s] is the connection of %s, whose CONNECT had to be refused\n%s", c16ID, name, h.history())
+		}
 		if c != nil && c.idx >= 0 && c.idx < L.idx {
 			return fmt.Sprintf("C16.invariant.stale-registration: b.clients[%s] is connection %s although the newer connection %s has been acknowledged\n%s", c16ID, c.name, L.name, h.history())
 		}
@@ -1510,7 +1980,7 @@ func (h *c16H) invariant() string {
 		}
 		return ""
 	}
-	if L.connected && !L.ended && !L.closedByServer && !L.superseded && !h.admin && (L.spec.KeepAlive == 0 || L.spec.KeepAlive >= 3600) {
+	if L.connected && !L.ended && !L.closedByServer && !L.superseded && !h.admin && !h.watchKill && (L.spec.KeepAlive == 0 || L.spec.KeepAlive >= 3600) {
 		return fmt.Sprintf("%s: b.clients[%s] is empty although connection %s was acknowledged, is healthy and nobody deleted its session; store deletes of its key: %v\n%s",
 			h.killClass("C16.invariant.registration-missing"), c16ID, L.name, h.st.delLog, h.history())
 	}
@@ -1532,6 +2002,11 @@ func (h *c16H) killClass(def string) string {
 	// whose delete-watch event arrives after the id's next connection registered
 	if h.brokerDeleted() {
 		return "C16.reconnect.killed-by-own-delete-event"
+	}
+	// the delete watch broke and was re-established; the id's session key was in
+	// the store whenever the broker listed the keys, nobody deleted it
+	if h.st.breaks > 0 && !h.watchKill {
+		return "C16.watch-reconnect.healthy-client-closed"
 	}
 	return def
 }
@@ -1676,14 +2151,18 @@ func (h *c16H) trieFilters(id string) []string {
 // Broker.sendMsgToClient, the function behind the publish endpoint) and
 // returns the payload per topic.
 func (h *c16H) probe() (map[string]string, bool) {
-	h.probeN++
-	round := h.probeN
-	out := map[string]string{}
-	done := false
 	q := byte(0)
 	if h.sc.AllQoS1 {
 		q = 1
 	}
+	return h.probeQ(q)
+}
+
+func (h *c16H) probeQ(q byte) (map[string]string, bool) {
+	h.probeN++
+	round := h.probeN
+	out := map[string]string{}
+	done := false
 	h.goTask(fmt.Sprintf("probe%d", round), func() {
 		for i, t := range c16Topics {
 			pl := fmt.Sprintf("p%d.%d", round, i)
@@ -1755,9 +2234,21 @@ func (h *c16H) final() {
 			}
 		}
 	}
+	if S != nil && h.watchKill {
+		// its session key was missing when the broker re-established the delete
+		// watch: the broker may have disconnected it for that (see onPrefix)
+		r.Probe("c16.survivor_not_judged_after_watch_break")
+		S = nil
+	}
 	if S == nil {
 		r.Probe("c16.no_survivor")
 		return
+	}
+	if h.st.breaks > 0 {
+		r.Probe("c16.survivor_checked_after_watch_break")
+	}
+	if len(h.intr) > 0 {
+		r.Probe("c16.survivor_checked_after_refused_attempts")
 	}
 	// ctx and the class refinements are evaluated when a violation is reported
 	// (the white-box reads below pass gates, a teardown may happen meanwhile)
@@ -1986,15 +2477,177 @@ func (h *c16H) final() {
 	if S.spec.Clean && S.idx > 0 {
 		r.Probe("c16.clean1_survivor_checked")
 	}
+	// F5 subscriptions keep their QoS (sessions with QoS0 and QoS>=1 filters):
+	// a QoS1 message must reach the survivor if a firm filter subscribed with
+	// QoS 1 or 2 matches. Where only QoS0 filters match both outcomes are
+	// accepted (easegress drops instead of downgrading: C15's subject).
+	if !h.sc.AllQoS1 && !r.Violated() && !h.stuck {
+		lo, hi := false, false
+		for _, f := range m.firm() {
+			if m.subs[f] >= 1 {
+				hi = true
+			} else {
+				lo = true
+			}
+		}
+		if lo && hi {
+			must1 := map[string]string{}
+			for _, t := range c16Topics {
+				for _, f := range m.firm() {
+					if m.subs[f] >= 1 && c16Match(f, t) {
+						must1[t] = f
+					}
+				}
+			}
+			pl1, ok := h.probeQ(1)
+			if !ok || !h.barrier(S) {
+				if S.closedByServer && !h.stuck {
+					r.Violate(h.killClass("C16.survivor-disconnected"), "the surviving connection was closed by the server during the QoS1 probe (%s). %s\n%s", S.closeErr, ctx(), h.history())
+				}
+				return
+			}
+			for _, t := range c16Topics {
+				if f := must1[t]; f != "" && S.recv[pl1[t]] == 0 {
+					cls := "C16.subscription-qos-lost"
+					if m.inherited[f] {
+						cls = "C16.reconnect.subscription-qos-not-restored" + lag()
+					}
+					r.Violate(cls, "QoS1 probe %s on %q was not delivered to the surviving connection although it holds %q subscribed with QoS%d (inherited=%v; model %v; its session object has %v). %s\n%s",
+						pl1[t], t, f, m.subs[f], m.inherited[f], m2s(m.subs), sessTopics(), ctx(), h.history())
+					break
+				}
+			}
+			r.Probe("c16.mixed_qos_session_checked")
+			if r.Violated() {
+				return
+			}
+		}
+	}
+	// F6 slow consumer: QoS1 messages published while the survivor does not
+	// read (more than the socket buffer and the connection's queue hold) all
+	// arrive once it reads again ("keeps receiving matching messages"; it
+	// acknowledges every message)
+	if n := h.sc.Burst; n > 0 && h.sc.AllQoS1 && !S.spec.NoAck && !r.Violated() && !h.stuck {
+		topic := ""
+		for _, t := range c16Topics {
+			if exp[t].must {
+				topic = t
+				break
+			}
+		}
+		if n > 200 {
+			n = 200
+		}
+		pad := h.sc.BurstPad
+		if pad < 0 || pad > 4096 {
+			pad = 0
+		}
+		if h.sc.BufSize > 0 && h.sc.BufSize <= 4096 {
+			// a tiny window carries a padded message in dozens of segments: slower
+			// than the broker's resend rate (see the latency cap in Exec)
+			pad = 0
+			if n > 60 {
+				n = 60
+			}
+		}
+		if topic != "" {
+			gate := make(chan struct{})
+			S.pause = gate
+			done := false
+			var want []string
+			for i := 0; i < n; i++ {
+				want = append(want, fmt.Sprintf("burst-%04d-of-%d.", i, n)+strings.Repeat("x", pad))
+			}
+			h.logf("burst: %d QoS1 messages of %d bytes on %s while %s does not read", n, len(want[0]), topic, S.name)
+			h.goTask("burst", func() {
+				for _, pl := range want {
+					h.b.sendMsgToClient(nil, topic, []byte(pl), 1)
+				}
+				done = true
+				h.bcast()
+			})
+			if !h.waitH("burst-publish-return", func() bool { return done }) {
+				close(gate)
+				return
+			}
+			r.Sleep(1013 * time.Millisecond)
+			close(gate)
+			got := func() int {
+				k := 0
+				for _, pl := range want {
+					if S.recv[pl] > 0 {
+						k++
+					}
+				}
+				return k
+			}
+			deadline := time.Now().Add(c16Timeout)
+			for got() < n && !S.dead() && !h.stop() && time.Now().Before(deadline) {
+				ch := S.note
+				t := time.NewTimer(time.Until(deadline))
+				select {
+				case <-ch:
+				case <-t.C:
+				}
+				t.Stop()
+				r.Yield("c16.wake")
+			}
+			if h.stop() {
+				return
+			}
+			if k := got(); k < n {
+				cls := "C16.qos1-messages-never-delivered"
+				if S.fromDB {
+					cls = "C16.reconnect.restored-session-never-redelivers"
+				}
+				if S.closedByServer {
+					cls = h.killClass("C16.survivor-disconnected")
+				}
+				pend, qlen := -1, -1
+				if cl.session != nil {
+					pend = len(cl.session.pending)
+				}
+				qlen = len(cl.writeCh)
+				r.Violate(cls, "%d of %d QoS1 messages published on %q while the surviving connection did not read were never delivered within %v after it resumed reading and acknowledging (session restored from store=%v, %d pending in its session, write queue %d/%d, closed by server=%v). %s\n%s",
+					n-k, n, topic, c16Timeout, S.fromDB, pend, qlen, cap(cl.writeCh), S.closedByServer, ctx(), h.history())
+				return
+			}
+			r.Probe("c16.burst_to_slow_consumer_delivered")
+			if S.fromDB {
+				r.Probe("c16.burst_to_restored_session_delivered")
+			}
+			// the acknowledgements must have reached the broker before the next step
+			if !h.barrier(S) {
+				return
+			}
+		}
+	}
 	// bystanders
 	for _, by := range h.bys {
+		if by.mayClose {
+			// its own session was deleted through the admin handler (or was not
+			// stored yet when the delete watch was re-established)
+			r.Probe("c16.bystander_not_judged")
+			continue
+		}
 		if !by.ready || by.closedByServer {
 			if by.closedByServer {
-				r.Violate("C16.bystander-disconnected", "%s was closed by the server (%s)\n%s", by.name, by.closeErr, h.history())
+				cls := "C16.bystander-disconnected"
+				if h.st.breaks > 0 {
+					cls = "C16.watch-reconnect.healthy-client-closed"
+				}
+				r.Violate(cls, "%s was closed by the server (%s)\n%s", by.name, by.closeErr, h.history())
 			}
 			continue
 		}
+		if cl := h.b.clients[by.id]; h.st.breaks > 0 && cl != nil && cl.statusFlag == Disconnected {
+			r.Violate("C16.watch-reconnect.healthy-client-closed", "%s (id %q) is marked disconnected although nobody deleted its session; the delete watch broke %d times\n%s", by.name, by.id, h.st.breaks, h.history())
+			continue
+		}
 		if !h.barrier(by) {
+			if by.closedByServer && !by.mayClose && !h.stuck {
+				r.Violate("C16.bystander-disconnected", "%s was closed by the server at its next packet (%s)\n%s", by.name, by.closeErr, h.history())
+			}
 			continue
 		}
 		for _, t := range c16Topics {
@@ -2049,6 +2702,17 @@ func (h *c16H) final() {
 		return
 	}
 	r.Probe("c16.admin_delete_unregistered_client")
+	// ... and nobody else
+	for _, by := range h.bys {
+		if !by.ready || by.mayClose || by.closedByServer {
+			continue
+		}
+		if cl := h.b.clients[by.id]; cl == nil || cl.statusFlag == Disconnected {
+			r.Violate("C16.admin-delete.other-client-affected", "after DELETE of session %q through the admin handler the client %q (%s) is unregistered or marked disconnected\n%s", c16ID, by.id, by.name, h.history())
+			return
+		}
+		r.Probe("c16.admin_delete_left_others_alone")
+	}
 	pl2, ok := h.probe()
 	if !ok {
 		return
@@ -2080,7 +2744,16 @@ func c16Exec(r *sim.Run, sci interface{}) {
 		c16LoggerReady = true
 	}
 	r.MultiClass = true
-	h := &c16H{r: r, sc: sc, byConn: map[int]*c16Cli{}, srv: map[int]*c16Srv{}, note: make(chan struct{}), liveNames: map[string]bool{}}
+	c16ID = c16IDs[0]
+	for _, id := range c16IDs {
+		if id == sc.ID {
+			c16ID = id
+		}
+	}
+	if c16ID != c16IDs[0] {
+		r.Probe("c16.client_id_shape")
+	}
+	h := &c16H{r: r, sc: sc, byConn: map[int]*c16Cli{}, srv: map[int]*c16Srv{}, note: make(chan struct{}), liveNames: map[string]bool{}, intr: map[int]string{}}
 	h.model = c16Model{subs: map[string]byte{}, inherited: map[string]bool{}, amb: map[string]bool{}, ever: map[string]bool{}}
 	h.n = simnet.New()
 	if sc.BufSize > 0 {
@@ -2105,7 +2778,9 @@ func c16Exec(r *sim.Run, sci interface{}) {
 				// would make the link slower than the broker's 200 ms resend rate
 				// (a congestion collapse that has nothing to do with the property)
 				lim := int64(1 << 40)
-				if len(c2s.SegSizes) > 0 || (sc.BufSize > 0 && sc.BufSize <= 4096) {
+				if len(c2s.SegSizes) > 0 || (sc.BufSize > 0 && sc.BufSize <= 4096) || sc.Burst > 0 {
+					// (the burst check makes the broker resend every 200 ms to a
+					// client that acknowledges every copy with a segment of its own)
 					lim = 5000
 				}
 				for _, d := range c.DelayC2SUs {
@@ -2126,8 +2801,35 @@ func c16Exec(r *sim.Run, sci interface{}) {
 	}
 	h.st = &c16Store{r: r, f: sc.Store, data: map[string]string{}, ch: make(chan map[string]*string, 256), getHit: map[string]int{}, getMark: map[string]int{}, getCnt: map[string]int{}}
 	h.st.deleter = h.deleterRole
+	h.st.onPrefix = h.onPrefix
+	if len(sc.Adm) > 0 {
+		// the stored session of an offline persistent client whose id extends the
+		// contested id (deleted by some of the admin requests)
+		off := &Session{info: &SessionInfo{EGName: "eg", Name: "c16", Topics: map[string]int{"a/#": 1, "c": 0}, ClientID: c16ID + "zz"}}
+		if v, err := off.encode(); err == nil {
+			h.st.data[sessionStoreKey(c16ID+"zz")] = v
+		}
+	}
 	spec := &Spec{Name: "c16", EGName: "eg", Port: 1884}
-	h.b = newBroker(spec, h.st, nil, func(string, string) ([]string, error) { return nil, nil })
+	if sc.TopicCache > 0 {
+		spec.TopicCacheSize = sc.TopicCache
+		r.Probe("c16.spec.small_topic_cache")
+	}
+	if sc.MaxConn {
+		// never binding: refused attempts are never registered
+		spec.MaxAllowedConnection = len(sc.By) + 2
+		r.Probe("c16.spec.max_allowed_connection")
+	}
+	if sc.ConnLimit {
+		spec.ConnectionLimit = &RateLimit{RequestRate: 100000, TimePeriod: 1}
+		spec.ClientPublishLimit = &RateLimit{RequestRate: 100000, BytesRate: 100000000, TimePeriod: 1}
+		r.Probe("c16.spec.rate_limits")
+	}
+	for _, pt := range h.pipeTypes() {
+		spec.Rules = append(spec.Rules, &Rule{When: &When{PacketType: pt}, Pipeline: "c16-" + string(pt)})
+		r.Probe("c16.spec.pipeline." + string(pt))
+	}
+	h.b = newBroker(spec, h.st, &c16Mux{h: h}, func(string, string) ([]string, error) { return nil, nil })
 	if h.b == nil {
 		r.Violate("C16.harness", "newBroker returned nil")
 		return
@@ -2156,7 +2858,12 @@ func c16Exec(r *sim.Run, sci interface{}) {
 	r.SetInvariant(h.invariant)
 
 	for j, by := range sc.By {
-		c := h.newCli(fmt.Sprintf("by%d", j), fmt.Sprintf("B%d", j), -1, c16Conn{Clean: by.Clean})
+		bid := fmt.Sprintf("B%d", j)
+		if sc.ByExt {
+			// ids that have the contested id as a prefix
+			bid = fmt.Sprintf("%s%d", c16ID, j)
+		}
+		c := h.newCli(fmt.Sprintf("by%d", j), bid, -1, c16Conn{Clean: by.Clean})
 		h.bys = append(h.bys, c)
 		h.pending++
 		by := by
@@ -2165,6 +2872,33 @@ func c16Exec(r *sim.Run, sci interface{}) {
 	h.pending += 2
 	h.goTask("driver", h.driver)
 	h.goTask("pub", h.publisher)
+	for j, in := range sc.Intr {
+		j, in := j, in
+		tick := h.nextTick()
+		h.pending++
+		h.goTask(fmt.Sprintf("in%d", j), func() { h.intruder(fmt.Sprintf("in%d", j), in, tick) })
+	}
+	for j, a := range sc.Adm {
+		j, a := j, a
+		h.pending++
+		h.goTask(fmt.Sprintf("adm%d", j), func() { h.adminOthers(j, a) })
+	}
+	if c16GenWatchBreak {
+		for j, us := range sc.WatchBreakUs {
+			us := us
+			h.pending++
+			h.goTask(fmt.Sprintf("wbreak%d", j), func() {
+				defer h.scriptDone()
+				r.Sleep(c16Us(us))
+				if h.stop() {
+					return
+				}
+				if h.st.breakWatch() {
+					h.logf("store: the delete watch breaks")
+				}
+			})
+		}
+	}
 	h.waitH("script-end", func() bool { return h.pending == 0 })
 
 	// settle: let keep-alive deadlines of dead connections and delayed storage
